@@ -542,6 +542,12 @@ func (ev *tplEval) eval(fc *fctx, e ast.Expr) Sketch {
 		}
 		fn := calleeOf(info, e)
 		if fn == nil {
+			// a call through a function-typed parameter: the alternatives are the named functions the call sites pass
+			if id := identOf(e.Fun); id != nil && fc.fn != nil {
+				if sk, ok := ev.callThroughParam(fc, id, e); ok {
+					return sk
+				}
+			}
 			return ev.unk(e, "dynamic call")
 		}
 		full := fn.FullName()
@@ -559,6 +565,15 @@ func (ev *tplEval) eval(fc *fctx, e ast.Expr) Sketch {
 			return ev.unk(e, "join of an unknown list")
 		case "strings.Repeat":
 			return Sketch{Star{ev.eval(fc, e.Args[0]), ""}}
+		case "(*strings.Builder).String", "(*bytes.Buffer).String":
+			if sel, ok := e.Fun.(*ast.SelectorExpr); ok {
+				if id := identOf(sel.X); id != nil {
+					if sk, ok := ev.evalBuilder(fc, id); ok {
+						return sk
+					}
+				}
+			}
+			return ev.unk(e, "contents of a builder that is not a local written only by Write*/Fprint*")
 		}
 		if cls, ok := atomFuncs[full]; ok {
 			return Sketch{Atom{cls, es(e)}}
@@ -969,4 +984,184 @@ func extractDecls(w *World, rel string) []*tplDecl {
 	}
 	sort.Slice(out, func(i, j int) bool { return out[i].pos < out[j].pos })
 	return out
+}
+
+// evalBuilder: the text held by a local strings.Builder / bytes.Buffer is the concatenation of what is written to it
+// (`b.WriteString(x)`, `b.WriteByte(c)`, `fmt.Fprintf(&b, format, …)`, `fmt.Fprint(&b, …)`), in the same way a string
+// local is the concatenation of its `+=`: writes inside a loop entered after the declaration repeat, the others happen
+// once (optionally, when conditional). Any other use of the variable (passed elsewhere, assigned) gives up.
+func (ev *tplEval) evalBuilder(fc *fctx, id *ast.Ident) (Sketch, bool) {
+	info := fc.pkg.TypesInfo
+	obj, ok := objOf(info, id).(*types.Var)
+	if !ok || fc.fn == nil || obj.IsField() || (obj.Pkg() != nil && obj.Parent() == obj.Pkg().Scope()) {
+		return nil, false
+	}
+	isB := func(e ast.Expr) bool { // b or &b
+		e = ast.Unparen(e)
+		if u, ok := e.(*ast.UnaryExpr); ok && u.Op == token.AND {
+			e = ast.Unparen(u.X)
+		}
+		i := identOf(e)
+		return i != nil && objOf(info, i) == types.Object(obj)
+	}
+	var once, incs []Sketch
+	onceCond := false
+	accounted := map[*ast.Ident]bool{}
+	good := true
+	add := func(n ast.Node, sk Sketch) {
+		if inLoopAfter(fc.fn, n, obj.Pos()) {
+			incs = append(incs, sk)
+			return
+		}
+		if len(pathCondsNoLoop(&FuncInfo{Decl: fc.fn}, n)) > 0 {
+			onceCond = true
+		}
+		once = append(once, sk)
+	}
+	mark := func(e ast.Expr) {
+		ast.Inspect(e, func(x ast.Node) bool {
+			if i, ok := x.(*ast.Ident); ok && objOf(info, i) == types.Object(obj) {
+				accounted[i] = true
+			}
+			return true
+		})
+	}
+	ast.Inspect(fc.fn, func(n ast.Node) bool {
+		call, ok := n.(*ast.CallExpr)
+		if !ok {
+			return true
+		}
+		fn := calleeOf(info, call)
+		if fn == nil {
+			return true
+		}
+		full := fn.FullName()
+		if sel, ok := call.Fun.(*ast.SelectorExpr); ok && isB(sel.X) {
+			switch full {
+			case "(*strings.Builder).WriteString", "(*bytes.Buffer).WriteString":
+				mark(sel.X)
+				add(call, ev.eval(fc, call.Args[0]))
+			case "(*strings.Builder).WriteByte", "(*bytes.Buffer).WriteByte", "(*strings.Builder).WriteRune", "(*bytes.Buffer).WriteRune":
+				mark(sel.X)
+				if tv := info.Types[call.Args[0]]; tv.Value != nil && tv.Value.Kind() == constant.Int {
+					v, _ := constant.Int64Val(tv.Value)
+					add(call, Sketch{Lit{string(rune(v))}})
+				} else {
+					good = false
+				}
+			case "(*strings.Builder).String", "(*bytes.Buffer).String", "(*strings.Builder).Len", "(*bytes.Buffer).Len":
+				mark(sel.X)
+			}
+			return true
+		}
+		switch full {
+		case "fmt.Fprintf":
+			if len(call.Args) >= 2 && isB(call.Args[0]) {
+				mark(call.Args[0])
+				add(call, ev.sprintf(fc, &ast.CallExpr{Fun: call.Fun, Lparen: call.Lparen, Args: call.Args[1:], Rparen: call.Rparen}))
+			}
+		case "fmt.Fprint", "fmt.Fprintln":
+			if len(call.Args) >= 1 && isB(call.Args[0]) {
+				mark(call.Args[0])
+				var sk Sketch
+				for _, a := range call.Args[1:] {
+					sk = append(sk, ev.eval(fc, a)...)
+				}
+				if full == "fmt.Fprintln" {
+					sk = append(sk, Lit{"\n"})
+				}
+				add(call, sk)
+			}
+		}
+		return true
+	})
+	// every other mention of the variable (its declaration aside) is a use this model does not cover
+	ast.Inspect(fc.fn, func(n ast.Node) bool {
+		if i, ok := n.(*ast.Ident); ok && info.Uses[i] == types.Object(obj) && !accounted[i] {
+			good = false
+		}
+		return true
+	})
+	if !good {
+		return nil, false
+	}
+	var out Sketch
+	for _, o := range once {
+		if onceCond {
+			out = append(out, Alt{[]Sketch{{}, o}})
+		} else {
+			out = append(out, o...)
+		}
+	}
+	if len(incs) > 0 {
+		out = append(out, Star{Sketch{Alt{incs}}, ""})
+	}
+	return out, true
+}
+
+// callThroughParam: id is a function-typed parameter of the enclosing function; every call site of that function in
+// the module passes a named function of the module for it. The result is the alternative of their inlinings.
+func (ev *tplEval) callThroughParam(fc *fctx, id *ast.Ident, call *ast.CallExpr) (Sketch, bool) {
+	info := fc.pkg.TypesInfo
+	obj := objOf(info, id)
+	if obj == nil {
+		return nil, false
+	}
+	if _, isSig := obj.Type().Underlying().(*types.Signature); !isSig {
+		return nil, false
+	}
+	idx, i := -1, 0
+	for _, f := range fc.fn.Type.Params.List {
+		for _, nm := range f.Names {
+			if info.Defs[nm] == obj {
+				idx = i
+			}
+			i++
+		}
+	}
+	if idx < 0 {
+		return nil, false
+	}
+	target := info.Defs[fc.fn.Name]
+	var opts []Sketch
+	seen := map[string]bool{}
+	good, sites := true, 0
+	for _, fi := range sortedFuncs(ev.w) {
+		cinfo := fi.Pkg.TypesInfo
+		ast.Inspect(fi.Decl.Body, func(n ast.Node) bool {
+			c2, ok := n.(*ast.CallExpr)
+			if !ok {
+				return true
+			}
+			if fn := calleeOf(cinfo, c2); fn == nil || types.Object(fn) != target || idx >= len(c2.Args) {
+				return true
+			}
+			sites++
+			var passed *types.Func
+			switch a := ast.Unparen(c2.Args[idx]).(type) {
+			case *ast.Ident:
+				passed, _ = cinfo.Uses[a].(*types.Func)
+			case *ast.SelectorExpr:
+				passed, _ = cinfo.Uses[a.Sel].(*types.Func)
+			}
+			pfi := ev.w.Funcs[passed]
+			if passed == nil || pfi == nil || ev.depth >= 6 {
+				good = false
+				return true
+			}
+			sk := ev.inline(fc, pfi, call)
+			if k := sk.String(); !seen[k] {
+				seen[k] = true
+				opts = append(opts, sk)
+			}
+			return true
+		})
+	}
+	if !good || sites == 0 || len(opts) == 0 {
+		return nil, false
+	}
+	if len(opts) == 1 {
+		return opts[0], true
+	}
+	return Sketch{Alt{opts}}, true
 }
